@@ -13,6 +13,7 @@ TRIVIAL = 'boolean::trivial_result'
 TRANSPARENT = re.compile(
     r'(::clone::Clone>::clone$|^std::clone::Clone::clone$|Vec::<T(, A)?>::as_slice$|as std::ops::Deref>::deref$|'
     r'slice::<impl \[T\]>::(iter|to_vec)$|Iterator::(chain|cloned|collect)$|IntoIterator>::into_iter$|IntoIterator::into_iter$|'
+    r'boxed::Box::<T>::new(_uninit)?$|boxed::box_assume_init_into_vec_unsafe$|slice::<impl \[T\]>::into_vec$|'
     r'as std::convert::From<&\[T\]>>::from$|as std::convert::From<&.*>>::from$|FromIterator<T>>::from_iter$)')
 
 
@@ -25,14 +26,33 @@ def params_in(v, p=None):
 
 
 def tree(v, p=None, seen=None):
-    """all sub-terms; references to locals are followed through the final memory of path p"""
-    seen = seen if seen is not None else set()
-    for x in sym.walk(v):
-        yield x
-        if p is not None and x[0] == 'ref' and x[1][0][0] == 'loc' and x[1] in p.final.mem and x[1] not in seen:
-            seen.add(x[1])
-            for y in tree(p.final.mem[x[1]], p, seen):
-                yield y
+    """all sub-terms; references to locals and values written through pointers that occur in the tree are followed
+    through the final memory of path p (a `vec![x]` is a box that x was written into)"""
+    out = []
+    seen_locs = set()
+    work = [v]
+    have = set()
+    while work:
+        cur = work.pop()
+        for x in sym.walk(cur):
+            key = id(x)
+            out.append(x)
+            if p is None:
+                continue
+            if x[0] == 'ref' and x[1][0][0] == 'loc' and x[1] not in seen_locs:
+                seen_locs.add(x[1])
+                for k, val in p.final.mem.items():
+                    # the referenced place, its sub-places and the places it is part of
+                    if k[0] == x[1][0] and (k[1][:len(x[1][1])] == x[1][1] or x[1][1][:len(k[1])] == k[1]):
+                        work.append(val)
+            if x[0] in ('call', 'pcall', 'boxptr', 'cast'):
+                for i, e in enumerate(p.events):
+                    if e['k'] == 'store' and e['loc'][0][0] == 'ext' and ('st', i) not in seen_locs:
+                        base = strip_upd(e['loc'][0][1])
+                        if base == x or (base[0] == 'boxptr' and strip_upd(base[1]) == x) or (base[0] == 'cast' and x in list(sym.walk(base))[:6]):
+                            seen_locs.add(('st', i))
+                            work.append(e['val'])
+    return out
 
 
 def calls_in(v, p=None):
@@ -58,14 +78,15 @@ def check_forward(ctx, rep, rule='T-forward'):
         ok_all = bool(ret_paths)
         msg = ''
         for p in ret_paths:
-            cs = list(p.calls('boolean_operation'))
+            # delegation to another (straight-line) impl is followed: inlined calls count
+            cs = [e for e in p.events if e['k'] == 'call' and e['callee'].endswith('boolean::boolean_operation')]
             if len(cs) != 1:
                 ok_all, msg = False, 'path makes %d calls to boolean_operation' % len(cs)
                 break
             a = cs[0]['args']
             pa, pb, pc = params_in(a[0], p), params_in(a[1], p), strip_upd(a[2])
             extra = sorted(c for c in (calls_in(a[0], p) | calls_in(a[1], p)) if not TRANSPARENT.search(c))
-            ret_is_call = strip_upd(p.ret)[0] == 'call' and strip_upd(p.ret)[1].endswith('boolean_operation')
+            ret_is_call = strip_upd(p.ret) == strip_upd(cs[0]['ret'])
             if pa != {'self'} or pb != {'rhs'} or not (pc[0] == 'param' and pc[2] == 'operation') or extra or not ret_is_call:
                 ok_all = False
                 msg = 'subject derives from %s, clipping from %s, operation from %s%s%s' % (
